@@ -7,6 +7,7 @@ import (
 	"sync"
 	"sync/atomic"
 	"testing"
+	"time"
 
 	"github.com/hashicorp/eventlogger"
 	"pgregory.net/rapid"
@@ -121,5 +122,72 @@ func TestC05ConcurrentFailing(t *testing.T) {
 			cl = append(cl, "many_failing_calls_during_sends")
 		}
 		sec.Case(senders >= 2 && onExisting, d, cl...)
+	})
+}
+
+const ruleConcReg = "rapid: 2-4 RegisterPipeline calls for one pipeline id and event type released at the same instant, each with its own marker sink, all with DenyOverwrite (nodes whose Type() yields), optionally mixed with ill-formed definitions under the same id; 20-60 rounds per case on fresh brokers; oracle (holds for every sequential order) = exactly one of the well-formed DenyOverwrite calls succeeds, no ill-formed call succeeds, and a Send reaches exactly the winner's sink; non-trivial = >=3 registrars; distinct = configuration"
+
+// TestC05ConcurrentRegistrations: "succeeds exactly when ... no existing pipeline with that ID and type forbids
+// overwriting" also when the registrations arrive together.
+func TestC05ConcurrentRegistrations(t *testing.T) {
+	sec := stats.Sec("concurrent_registrations", ruleConcReg)
+	rapid.Check(t, func(t *rapid.T) {
+		g := rapid.IntRange(2, 4).Draw(t, "registrars")
+		ill := rapid.IntRange(0, 1).Draw(t, "illFormedRegistrars")
+		rounds := rapid.SampledFrom([]int{20, 60}).Draw(t, "rounds")
+		d := fmt.Sprintf("registrars=%d illFormed=%d rounds=%d", g, ill, rounds)
+		ctx := context.Background()
+		for r := 0; r < rounds; r++ {
+			b, _ := eventlogger.NewBroker()
+			_ = b.RegisterNode("f", simul.New("f", eventlogger.NodeTypeFilter))
+			_ = b.RegisterNode("m", simul.New("m", eventlogger.NodeTypeFormatter))
+			sinks := make([]*simul.Node, g+ill)
+			errs := make([]error, g+ill)
+			fs := make([]func(), g+ill)
+			for i := range sinks {
+				i := i
+				sinks[i] = simul.New(fmt.Sprintf("s%d", i), eventlogger.NodeTypeSink)
+				sid := eventlogger.NodeID(sinks[i].Name)
+				_ = b.RegisterNode(sid, sinks[i])
+				ids := []eventlogger.NodeID{"f", "m", sid}
+				if i >= g {
+					ids = []eventlogger.NodeID{"f", sid} // no formatter before the sink
+				}
+				fs[i] = func() {
+					errs[i] = b.RegisterPipeline(eventlogger.Pipeline{PipelineID: "P", EventType: "T", NodeIDs: ids}, eventlogger.WithPipelineRegistrationPolicy(eventlogger.DenyOverwrite))
+				}
+			}
+			if !simul.Burst(20*time.Second, fs...) {
+				fmt.Printf("\nINCONCLUSIVE-MARK watchdog: simultaneous registrations did not return\n")
+				t.Skip("inconclusive")
+			}
+			winner, nwin := -1, 0
+			for i := 0; i < g; i++ {
+				if errs[i] == nil {
+					winner, nwin = i, nwin+1
+				}
+			}
+			for i := g; i < g+ill; i++ {
+				if errs[i] == nil {
+					t.Fatalf("VIOLATION C05: an ill-formed definition was accepted (round %d)\ncase: %s", r, d)
+				}
+			}
+			if nwin != 1 {
+				t.Fatalf("VIOLATION C05: %d of %d simultaneous DenyOverwrite registrations of one pipeline id succeeded (round %d): whichever came first forbids the others\ncase: %s", nwin, g, r, d)
+			}
+			if _, err := b.Send(ctx, "T", "x"); err != nil {
+				t.Fatalf("VIOLATION C05: Send failed after the registrations: %v\ncase: %s", err, d)
+			}
+			for i, s := range sinks {
+				want := int64(0)
+				if i == winner {
+					want = 1
+				}
+				if s.Processed.Load() != want {
+					t.Fatalf("VIOLATION C05: registrar %d's sink received %d events, registrar %d holds the only successful registration (round %d)\ncase: %s", i, s.Processed.Load(), winner, r, d)
+				}
+			}
+		}
+		sec.Case(g >= 3, d, fmt.Sprintf("registrars=%d", g))
 	})
 }
